@@ -222,3 +222,219 @@ func ruleC09LetterCase(p *Program, r *Run) {
 	}
 	r.Floor("C09/letter-case", 2)
 }
+
+// ---- C09/classes (continuation of an identifier), round 10.
+//
+// C09/classes decides with which characters the identifier sub-scanner is entered. The characters it goes on with
+// are decided here: in the scanner method that builds the TokenIdentifier token, a loop reads `c, ok := s.next()`
+// and either leaves on `if <cond over c> { ...; break }` or goes round on `if <cond over c> { continue }`. With ok
+// known true the condition is evaluated for every character U+0000..U+30FF (the same symbolic evaluation as for the
+// first-character classes); the characters the loop goes on with must be exactly the documented [A-Za-z0-9_].
+// A shape that is not recognised or a condition that cannot be evaluated is not decided (and not reported).
+func ruleC09IdentTail(p *Program, r *Run) {
+	pkg := p.Parser
+	info := pkg.TypesInfo
+	identK, ok := pkg.Types.Scope().Lookup("TokenIdentifier").(*types.Const)
+	if !ok {
+		return
+	}
+	next := FuncObj(pkg, p.MustFunc(pkg, "scanner.next"))
+	documented := func(c rune) bool {
+		return c >= 'a' && c <= 'z' || c >= 'A' && c <= 'Z' || c >= '0' && c <= '9' || c == '_'
+	}
+	for _, fd := range AllFuncs(pkg) {
+		if fd.Body == nil || fd.Recv == nil || !p.isLexerFunc(fd) {
+			continue
+		}
+		builds := false
+		ast.Inspect(fd.Body, func(n ast.Node) bool {
+			if kv, ok := n.(*ast.KeyValueExpr); ok {
+				if k, ok := kv.Key.(*ast.Ident); ok && k.Name == "Kind" {
+					if id, ok := ast.Unparen(kv.Value).(*ast.Ident); ok && info.Uses[id] == types.Object(identK) {
+						builds = true
+					}
+				}
+			}
+			return !builds
+		})
+		if !builds {
+			continue
+		}
+		fn := FuncName(pkg, fd)
+		nLoop := 0
+		ast.Inspect(fd.Body, func(n ast.Node) bool {
+			loop, ok := n.(*ast.ForStmt)
+			if !ok {
+				return true
+			}
+			nLoop++
+			var cVar, okVar types.Object
+			for _, st := range loop.Body.List {
+				if as, ok := st.(*ast.AssignStmt); ok && len(as.Lhs) == 2 && len(as.Rhs) == 1 {
+					if call, ok := as.Rhs[0].(*ast.CallExpr); ok && Callee(info, call) == next {
+						cVar, okVar = objOf(info, as.Lhs[0]), objOf(info, as.Lhs[1])
+					}
+				}
+				ifs, ok := st.(*ast.IfStmt)
+				if !ok || cVar == nil || ifs.Init != nil || ifs.Else != nil || len(ifs.Body.List) == 0 {
+					continue
+				}
+				mentions := false
+				ast.Inspect(ifs.Cond, func(m ast.Node) bool {
+					if id, ok := m.(*ast.Ident); ok && info.Uses[id] == cVar {
+						mentions = true
+					}
+					return true
+				})
+				if !mentions {
+					continue
+				}
+				last, isBr := ifs.Body.List[len(ifs.Body.List)-1].(*ast.BranchStmt)
+				var leaves bool
+				switch {
+				case isBr && last.Tok == token.BREAK && last.Label == nil:
+					leaves = true
+				case isBr && last.Tok == token.CONTINUE && last.Label == nil && len(ifs.Body.List) == 1:
+					leaves = false
+				default:
+					continue
+				}
+				bad, undecided := "", false
+				for c := rune(0); c < runeLimit && bad == ""; c++ {
+					benv := map[types.Object]bool{}
+					if okVar != nil {
+						benv[okVar] = true
+					}
+					v, ok := newPredEval(p, map[types.Object]int64{cVar: int64(c)}, benv, 0).evalB(ifs.Cond)
+					if !ok {
+						undecided = true
+						break
+					}
+					goesOn := v != leaves
+					if goesOn != documented(c) {
+						bad = fmt.Sprintf("%q (U+%04X): goes on=%v, documented=%v", c, c, goesOn, documented(c))
+					}
+				}
+				if undecided {
+					r.Note("C09/classes: the continuation test of %s loop #%d (%s) cannot be evaluated symbolically; not decided", fn, nLoop, exprStr(ifs.Cond))
+					continue
+				}
+				r.Saw(fn)
+				r.Check(bad == "", "C09/classes", fmt.Sprintf("%s loop #%d continuation class", fn, nLoop), p.Pos(ifs.Pos()), "the identifier goes on with exactly the documented characters [A-Za-z0-9_] (U+0000..U+30FF)", "the characters an identifier goes on with differ from the documented [A-Za-z0-9_]: "+bad+" - the first character is dispatched on another class, so the same text is one identifier or an identifier and an error token depending on where it starts")
+			}
+			return true
+		})
+	}
+}
+
+// ---- C08/notfound (nothing kept), round 10.
+//
+// A production that answers with the not-found marker has found nothing: whatever node value comes with the marker
+// is a by-product (a half-built node, a zero value). Where a parser method tests `isNotFound(err)` directly behind
+// `n, err := <production>()`, the branch taken when the test says yes must not put n into the tree - not append it,
+// not store it in a field or an element, not place it in a composite literal. A node kept there is in the tree
+// although the parse says that nothing was there (and its required fields are empty: the traversal meets nil).
+func ruleC08NotFoundKept(p *Program, r *Run) {
+	pkg := p.Parser
+	info := pkg.TypesInfo
+	nfd := p.FuncDecl(pkg, "isNotFound")
+	if nfd == nil {
+		return
+	}
+	notFound := FuncObj(pkg, nfd)
+	n := 0
+	for _, fd := range AllFuncs(pkg) {
+		if fd.Body == nil {
+			continue
+		}
+		fn := FuncName(pkg, fd)
+		ast.Inspect(fd.Body, func(x ast.Node) bool {
+			blk, ok := x.(*ast.BlockStmt)
+			if !ok {
+				return true
+			}
+			for i, st := range blk.List {
+				as, ok := st.(*ast.AssignStmt)
+				if !ok || len(as.Lhs) != 2 || len(as.Rhs) != 1 || i+1 >= len(blk.List) {
+					continue
+				}
+				if _, isCall := as.Rhs[0].(*ast.CallExpr); !isCall {
+					continue
+				}
+				nodeV, errV := objOf(info, as.Lhs[0]), objOf(info, as.Lhs[1])
+				if nodeV == nil || errV == nil || TypeStr(errV.Type()) != "error" {
+					continue
+				}
+				ifs, ok := blk.List[i+1].(*ast.IfStmt)
+				if !ok || ifs.Init != nil {
+					continue
+				}
+				// the condition is isNotFound(err), possibly one conjunct of a && chain
+				yes := false
+				var conj func(e ast.Expr)
+				conj = func(e ast.Expr) {
+					e = ast.Unparen(e)
+					if b, ok := e.(*ast.BinaryExpr); ok && b.Op == token.LAND {
+						conj(b.X)
+						conj(b.Y)
+						return
+					}
+					if call, ok := e.(*ast.CallExpr); ok && Callee(info, call) == notFound && len(call.Args) == 1 && objOf(info, call.Args[0]) == errV {
+						yes = true
+					}
+				}
+				conj(ifs.Cond)
+				if !yes {
+					continue
+				}
+				n++
+				r.Saw(fn)
+				var kept []string
+				isN := func(e ast.Expr) bool {
+					id, ok := ast.Unparen(e).(*ast.Ident)
+					return ok && info.Uses[id] == nodeV
+				}
+				ast.Inspect(ifs.Body, func(m ast.Node) bool {
+					switch v := m.(type) {
+					case *ast.FuncLit:
+						return false
+					case *ast.CallExpr:
+						if IsBuiltinCall(info, v, "append") {
+							for _, a := range v.Args[1:] {
+								if isN(a) {
+									kept = append(kept, "appended at "+p.Pos(v.Pos()))
+								}
+							}
+						}
+					case *ast.AssignStmt:
+						for j, l := range v.Lhs {
+							if j >= len(v.Rhs) || !isN(v.Rhs[j]) {
+								continue
+							}
+							switch ast.Unparen(l).(type) {
+							case *ast.SelectorExpr, *ast.IndexExpr:
+								kept = append(kept, "stored at "+p.Pos(v.Pos()))
+							}
+						}
+					case *ast.CompositeLit:
+						for _, el := range v.Elts {
+							if kv, ok := el.(*ast.KeyValueExpr); ok {
+								el = kv.Value
+							}
+							if isN(el) {
+								kept = append(kept, "placed in a literal at "+p.Pos(v.Pos()))
+							}
+						}
+					}
+					return true
+				})
+				key := fmt.Sprintf("%s result %s of %s behind isNotFound", fn, nodeV.Name(), exprStr(as.Rhs[0]))
+				r.Check(len(kept) == 0, "C08/notfound", key, p.Pos(ifs.Pos()), "the branch taken when the production found nothing keeps nothing of its result in the tree", "the node that came with the not-found marker is kept in the tree ("+strings.Join(kept, ", ")+"): the parse goes on as if nothing had been there, yet a half-built node (required fields empty) is part of the result - the traversal and the compiler meet nil")
+			}
+			return true
+		})
+	}
+	if n == 0 {
+		r.Note("C08/notfound (nothing kept): no `n, err := production(); if isNotFound(err)` site found; not decided")
+	}
+}
